@@ -51,6 +51,16 @@ def run_config(chk, tier, cfgname):
     chk.extra["outcomes_explored"] = n_out
     # gray_remaining is what Marking-vs-Marked is derived from
     typestate.apply(chk, "gray_remaining-table", "gray_remaining")
+    # ... and mark_one is what makes the pending work go away: the summary the exploration above replaces it by
+    # (Continue: one unit of pending work done; Break: nothing was pending; unwinding: nothing pending is lost) is
+    # this property's obligation on mark_one's own rows - "Marked", and with it the start of a sweep, must not be
+    # reached by *losing* pending work (a root flag cleared before a root trace that then panics, an interrupted
+    # object not requeued)
+    import re as _re
+    pending_work = _re.compile(r"root flag|root flagged|nothing owed|after tracing the root|must be Gray and queued|"
+                               r"could not be analysed")
+    typestate.apply(chk, "mark_one-pending-work", "mark_one",
+                    specfn=lambda r: [p_ for p_ in typestate.SPECS["mark_one"](r) if pending_work.search(p_)])
     typestate.apply(chk, "phase-table", "phase", specfn=lambda r: [] if (not r.err and all(
         o.ret == r.pre["phase"] for o in r.outs)) else ["Context::phase() does not report the stored phase"])
     common.phase_writers(chk, prog)
